@@ -880,6 +880,16 @@ def list_faults(members):
         out.append(("del-member", main[1:]))
     out.append(("del-member", CT_NAME))
     out.append(("del-member", "_rels/.rels"))
+    # the extension of a part name in the other letter case (image1.PNG) while the Default entry that types it
+    # keeps its spelling: the members, the rels item and every Target follow the new name
+    if ct is not None:
+        over = {pn.lower() for pn, _t in ct[1]}
+        for name, _data in members:
+            if name == CT_NAME or source_of_rels(name) is not None or ("/" + name).lower() in over:
+                continue
+            stem, dot, ext = name.rpartition(".")
+            if dot and "/" not in ext and ext.isascii() and ext.upper() != ext.lower():
+                out.append(("case-ext", name))
     # a part member deleted while its own rels item stays behind (every relationship to it dangles and
     # the loader still meets the orphaned rels item when it walks the graph)
     for name, _data in members:
@@ -969,6 +979,10 @@ def apply_fault(members, fault):
                   [("junk/readme.txt", b"unreferenced"), ("ppt/_rels/ghost.xml.rels", rels_xml([("rId1", RT_BASE + "slide", "slides/slide1.xml", "Internal")]))]]
         have = {n for n, _ in members}
         return members + [(n, b) for n, b in extras[fault[1]] if n not in have]
+    if kind == "case-ext":
+        name = fault[1]
+        stem, _dot, ext = name.rpartition(".")
+        return _retarget(members, {"/" + name: "/" + stem + "." + (ext.upper() if ext != ext.upper() else ext.lower())})
     if kind == "rename-slides":
         slides = sorted((int(_SLIDE_RE.match(n).group(1)), n) for n, _ in members if _SLIDE_RE.match(n))
         nums = [k for k, _ in slides]
